@@ -74,6 +74,8 @@ def vacuity(cases, strict):
     widths = collections.defaultdict(set)
     for c in cases:
         t = c['tool']
+        if c.get('regdot') and c['out']:
+            n[t + ':reg-continuation-line-begins-with-dot'] += c['regdot']
         for it in c['exp']:
             if it['t'] == 'G':
                 n['%s:k%d' % (t, it['k'])] += 1
@@ -164,6 +166,7 @@ def vacuity(cases, strict):
     need += ['%s:%s-table-span-both-cells-to-the-right' % (t, p) for t in ('asm', 'html') for p in ('par', 'reg')]
     need += ['skool:wrapalign-' + k for k in ('wrapped', 'multi', 'near', 'multi:extra1', 'multi:extra2', 'multi:extra3')]
     need += ['skool:wrapalign-%s:%s' % (a, k) for a in ('multi', 'near') for k in ('list', 'table', 'udgtable')]
+    need += [t + ':reg-continuation-line-begins-with-dot' for t in ('asm', 'html', 'gen', 'skool')]
     need += ['asm:table', 'html:table', 'skool:nowrap', 'asm:overlong-line', 'skool:overlong-line', 'asm:exactly-W',
              'skool:exactly-W', 'asm:warned', 'asm:table-line']
     missing = [k for k in need if not n[k]]
@@ -261,6 +264,11 @@ def run(tier):
     wa_multi = counts['skool:wrapalign-multi']
     rep.extra['sna2skool_wrapalign_rows_wrapped_with_multi_space_cell_start'] = wa_multi
     rep.extra['sna2skool_wrapalign_rows_of_those_breaking_within_the_extra_blanks_of_the_width'] = counts['skool:wrapalign-near']
+    # register continuation lines ('; .  text') whose text itself begins with a dot, per route
+    regdot = {t: counts[t + ':reg-continuation-line-begins-with-dot'] for t in ('asm', 'html', 'gen', 'skool')}
+    rep.extra['register_continuation_lines_whose_text_begins_with_a_dot'] = regdot
+    if not regdot['asm'] or not regdot['html'] or (not regdot['skool'] and not rep.violations):
+        raise MachineryError('C18: no register continuation line whose text begins with a dot was judged: %s' % regdot)
     if not wa_multi:
         raise MachineryError('C18: sna2skool wrapped no <wrapalign> item / row whose text begins 2+ blanks behind its { or |')
     if not non_io_html:
@@ -293,7 +301,8 @@ def run(tier):
     rep.sample({k: cases[1][k] for k in ('key', 'tool', 'W', 'cwmin')} | {'exp0': cases[1]['exp'][0], 'out0': cases[1]['out'][:2]})
     rep.extra['class_counts'] = {k: v for k, v in sorted(counts.items())}
     rep.extra['documents'] = len(specs)
-    rep.rule = ('documents of unique word tokens (titles, paragraphs, registers with prefixes - Input/Output/In/I/O, other '
+    rep.rule = ('documents of unique word tokens (some with leading punctuation: 1-3 dots, * - : > ( < &; the input lines of '
+                'the skool file - register continuation lines among them - are broken in front of such words in 2 of 3 cases) (titles, paragraphs, registers with prefixes - Input/Output/In/I/O, other '
                 'I*/O* words, words with any other first letter in either case, one letter; first register with or without '
                 'one, unprefixed registers behind prefixed ones, prefix and table changing in mid list, back to input - and '
                 'delimited names, start/mid/end '
